@@ -1,0 +1,72 @@
+//go:build verif
+
+package websocket
+
+// Contracts for Frame construction and masking (property C16; used by C08, C15, C06).
+
+//@ func ext:crypto/rand.Read
+//@   trusted
+//@   modifies mem(b)
+
+//@ func GenMask
+//@   prop C16
+//@   modifies mem(b)
+
+// Mask XORs b with the 4-byte key, position by position.
+//@ func Mask
+//@   prop C16
+//@   requires len(mask) >= 4 && disjoint(mask, b)
+//@   loop 1 invariant -1 <= rangeindex && rangeindex < max(len(b), 1) && unchanged_except(b)
+//@   loop 1 invariant forall k :: 0 <= k && k < len(b) ==> b[k] == ((k <= rangeindex) ? old(b[k]) ^ mask[k&3] : old(b[k]))
+//@   ensures [xor] forall k :: 0 <= k && k < len(b) ==> b[k] == old(b[k]) ^ mask[k&3]
+//@   modifies mem(b)
+
+//@ func (*Frame).setPayloadLength
+//@   prop C16
+//@   arith bv
+//@   requires len(*f) >= 10 && 0 <= n
+//@   let masked = (*f)[1] & 128
+//@   ensures [shape] len(*f) == old(len(*f)) && ptr(*f) == old(ptr(*f)) && cap(*f) == old(cap(*f)) && result == f
+//@   ensures [mask-bit] (*f)[1] & 128 == masked && (*f)[0] == old((*f)[0])
+//@   // shortest legal encoding of the length
+//@   ensures [short] n <= 125 ==> int((*f)[1] & 127) == n
+//@   ensures [medium] 125 < n && n <= 65535 ==> (*f)[1] & 127 == 126 && int((*f)[2])<<8 + int((*f)[3]) == n
+//@   ensures [long] n > 65535 ==> (*f)[1] & 127 == 127 &&
+//@           int((*f)[2])<<56 + int((*f)[3])<<48 + int((*f)[4])<<40 + int((*f)[5])<<32 + int((*f)[6])<<24 + int((*f)[7])<<16 + int((*f)[8])<<8 + int((*f)[9]) == n
+//@   ensures [rest] forall k :: 10 <= k && k < cap(*f) ==> (*f)[k] == old((*f)[k])
+//@   modifies mem((*f)[0:10])
+
+//@ func (*Frame).SetPayload
+//@   prop C16
+//@   requires len(*f) >= 2 && cap(*f) <= 1<<46 && len(b) <= 1<<40 && disjoint(b, (*f)[0:cap(*f)]) && heapslice(*f)
+//@   let masked = (*f)[1] & 128 != 0
+//@   let ext = (len(b) > 65535) ? 8 : ((len(b) > 125) ? 2 : 0)
+//@   let off = 2 + ext + (masked ? 4 : 0)
+//@   // header + declared length, nothing trailing from an earlier, longer use of the frame
+//@   ensures [exact-length] len(*f) == off + len(b) && result == f && heapslice(*f) && cap(*f) <= 1<<46
+//@   ensures [payload] forall k :: 0 <= k && k < len(b) ==> (*f)[off + k] == old(b[k])
+//@   ensures [first-byte] (*f)[0] == old((*f)[0]) && ((*f)[1] & 128 != 0) == masked
+//@   ensures [short] len(b) <= 125 ==> int((*f)[1] & 127) == len(b)
+//@   ensures [medium] 125 < len(b) && len(b) <= 65535 ==> (*f)[1] & 127 == 126 && int((*f)[2])<<8 + int((*f)[3]) == len(b)
+//@   ensures [long] len(b) > 65535 ==> (*f)[1] & 127 == 127 &&
+//@           int((*f)[2])<<56 + int((*f)[3])<<48 + int((*f)[4])<<40 + int((*f)[5])<<32 + int((*f)[6])<<24 + int((*f)[7])<<16 + int((*f)[8])<<8 + int((*f)[9]) == len(b)
+
+// A frame whose length equals header + declared payload length (declared length < 2^40).
+//@ pred frameWF(s []byte) =
+//@   len(s) >= 2 && len(s) >= 2 + (((s[1] & 127) == 127) ? 8 : (((s[1] & 127) == 126) ? 2 : 0)) &&
+//@   len(s) == 2 + (((s[1] & 127) == 127) ? 8 : (((s[1] & 127) == 126) ? 2 : 0)) + (((s[1] & 128) != 0) ? 4 : 0) +
+//@     (((s[1] & 127) == 127) ? (int(s[2])<<56 + int(s[3])<<48 + int(s[4])<<40 + int(s[5])<<32 + int(s[6])<<24 + int(s[7])<<16 + int(s[8])<<8 + int(s[9])) :
+//@      (((s[1] & 127) == 126) ? (int(s[2])<<8 + int(s[3])) : int(s[1] & 127))) &&
+//@   (((s[1] & 127) == 127) ==> s[2] == 0 && s[3] == 0 && s[4] < 128)
+
+// MaskPayload: for a frame laid out with the mask bit set, XOR the payload with a fresh key
+// stored in the 4 bytes before it; un-masking with that key gives back the caller's bytes.
+//@ func (*Frame).MaskPayload
+//@   prop C16
+//@   requires frameWF(*f) && (*f)[1] & 128 != 0
+//@   let ext = (((*f)[1] & 127) == 127) ? 8 : ((((*f)[1] & 127) == 126) ? 2 : 0)
+//@   let off = 2 + ext + 4
+//@   ensures [shape] len(*f) == old(len(*f)) && ptr(*f) == old(ptr(*f)) && frameWF(*f)
+//@   ensures [header] forall k :: 0 <= k && k < 2 + ext ==> (*f)[k] == old((*f)[k])
+//@   ensures [masked] forall k :: 0 <= k && k < len(*f) - off ==> (*f)[off + k] == old((*f)[off + k]) ^ (*f)[off - 4 + (k & 3)]
+//@   modifies mem(*f)
